@@ -1,16 +1,29 @@
 """C03 - every route to the same operator-with-BC result agrees.
 
 For random (grid, operator, boundary conditions, field) the result is obtained by every public route:
-field method, grid.make_operator on the numba backend (and the scipy backend where it registers the
-operator), make_operator_no_bc after the interpreted set_ghost_cells, the same after the compiled
-ghost-cell setter, the sparse-matrix representation used by the Poisson solvers (Laplacian), with
-and without an `out` array; numba kernels with source semantics (NUMBA_DISABLE_JIT=1) and JIT-compiled;
-and, above a lowered multithreading threshold, with 1, 2 and 16 threads in separate processes.
-All routes must agree pairwise (1e-10) and with the Lean model (ghost cells by `BC.setGhostAll`,
-kernel by `Stencil`) evaluated over exact rationals; thread runs must be bit-identical.
-Extractor E2 checks on every run that each `nb.prange` loop of the numba operator files writes only the
-output cell of its own iteration and reads `out` nowhere else - the hypothesis of the
-schedule-independence theorem."""
+field methods (`apply_operator` and the named method; with the specification, with the `BoundariesList`
+object, with `out=` a field, with an explicit `backend=` for every backend that registers the operator),
+`grid.make_operator` on the numba backend and on the scipy backend where it registers the operator (each with
+and without an `out` array and with the `BoundariesList` object), `make_operator_no_bc` after the interpreted
+`set_ghost_cells`, the same after the compiled ghost-cell setter, the sparse-matrix representation used by the
+Poisson solvers (Laplacian); numba kernels with source semantics (NUMBA_DISABLE_JIT=1) and JIT-compiled.
+All routes must agree pairwise (1e-10; a non-finite value is a difference) and with the Lean model (ghost
+cells by `BC.setGhostAll`, kernel by `Stencil`) evaluated over exact rationals.
+
+Thread leg: every operator with an `nb.prange` kernel (2-d and 3-d Cartesian, cylindrical) on grids above the
+lowered multithreading threshold with 1, 2 and 16 threads in separate processes: bit-identical to each other,
+equal to the source-semantics run, and the leg asserts that the kernels really were compiled with
+`parallel=True` and contain parallel loops (dispatcher target options and parfor diagnostics).
+
+Schedule leg (tie of `Model/ParLoop` to the code): the real kernel source is executed (source semantics) with
+its `nb.prange` iterations in a random permutation, on instrumented arrays that log every element write and
+read.  Checked on the real trace: the hypotheses of `parallel_schedule_independent` (pairwise distinct written
+cells, `out` never read, the input never written), the permuted result is bit-identical to the serial one, and
+the Lean model `ParLoop.runWrites` on the logged write list (in permuted and in serial order) reproduces it.
+
+Extractor E2 checks on every run that each `nb.prange` loop of the package writes only the output cell of its
+own iteration, reads `out` nowhere else, writes no other array and calls no helper - the static form of the
+same hypothesis."""
 import ast
 import os
 from fractions import Fraction
@@ -18,7 +31,7 @@ from fractions import Fraction
 import numpy as np
 
 from harness import c02, c01
-from harness.common.num import q, unq
+from harness.common.num import q, unq, far, arr_far
 from harness.common.isolated import run_many
 from harness.common import paths
 
@@ -26,70 +39,144 @@ PID = "C03"
 LEVEL = "proof"
 REQUIRED_THEOREMS = [
     "parallel_schedule_independent", "kernel_schedule_independent", "chunked_schedule_independent",
-    "runWrites_kernel_value", "out_route_eq", "ghost_route_order_irrelevant", "matrix_route_eq_stencil_route",
+    "runWrites_kernel_value", "out_route_eq", "ghost_route_order_irrelevant",
+    "bernstein_schedule_independent", "runBodies_kernel", "schedule_dependent_if_out_is_read", "schedule_dependent_if_cells_shared",
+    "matrix_route_eq_stencil_route", "matrix_route_eq_stencil_route_cart2", "matrix_route_eq_stencil_route_cart3",
+    "matrix_route_eq_stencil_route_polar", "matrix_route_eq_stencil_route_polar_disk", "matrix_route_eq_stencil_route_sph",
+    "matrix_route_eq_stencil_route_sph_ball", "matrix_route_eq_stencil_route_cyl",
 ]
 RULE = ("seed-derived (grid class, shape, operator with options, per-side boundary conditions of any class incl. "
         "expressions and per-face arrays, integer field data); every case is evaluated through all routes that exist for "
-        "it; distinct by the whole case, non-trivial if the field is not constant; thread leg: 2-d/3-d grids above the "
-        "lowered multithreading threshold x {1, 2, 16} threads")
+        "it; distinct by the whole case, non-trivial if the field is not constant; thread leg: every operator with a prange "
+        "kernel on 2-d/3-d Cartesian and cylindrical grids above the lowered multithreading threshold x {1, 2, 16} threads; "
+        "schedule leg: the same operators, real kernel source under a seed-derived permutation of the prange iterations")
 ASSUMPTIONS = [
-    "the real thread scheduler of numba is runtime behaviour the model cannot exhibit; validated by multi-process thread runs",
+    "the real thread scheduler of numba is runtime behaviour the model cannot exhibit; validated by multi-process thread runs "
+    "(with the assertion that the kernels were compiled parallel) and by permuted-order execution of the kernel source",
     "routes compared at 1e-10 relative to max|result| + max|data|/dx_min^2",
 ]
-TRUSTED_EXTRA = ["extractor E2 (Python ast walk over pde/backends/numba/operators/*.py) establishes the kernel-shape hypothesis of the schedule theorem"]
+TRUSTED_EXTRA = ["extractor E2 (Python ast walk over every nb.prange loop under pde/) establishes the kernel-shape hypothesis of the "
+                 "schedule theorem statically; the schedule leg re-establishes it dynamically on logged element accesses"]
+MIN_LEGS = {"routes": 100, "threads": 9, "schedule": 15, "complex": 20}
 
 CLS = c01.DIM and {"UnitGrid": "cart", "CartesianGrid": "cart", "PolarSymGrid": "polar", "SphericalSymGrid": "sph", "CylindricalSymGrid": "cyl"}
 OPS_BY_RANK = {0: ["laplace", "gradient", "gradient_squared"], 1: ["divergence", "vector_gradient", "vector_laplace"], 2: ["tensor_divergence"]}
+METHOD_OF = {"laplace": "laplace", "gradient": "gradient", "divergence": "divergence", "gradient_squared": "gradient_squared",
+             "vector_gradient": "gradient", "vector_laplace": "laplace", "tensor_divergence": "divergence"}
+NINE_POINT = list(getattr(c01, "NINE_POINT", []))
+MATRIX_MODS = {"cart": "cartesian", "polar": "polar_sym", "sph": "spherical_sym", "cyl": "cylindrical_sym"}
+EVAL_ENV = {"array": np.array, "nan": float("nan"), "inf": float("inf")}
 
 
 # ------------------------------------------------------------------------------------------
 # extractor E2
-def e2_check():
-    """returns list of problems found in prange loops"""
+PURE_CALLS = {"range", "nb.prange", "numba.prange", "prange", "abs", "min", "max", "float", "int"}
+
+
+def _is_own_index(node, idx):
+    """`idx - 1` exactly (the output cell of iteration `idx`: the loops run over the padded indices 1..n)"""
+    return (isinstance(node, ast.BinOp) and isinstance(node.op, ast.Sub) and isinstance(node.left, ast.Name)
+            and node.left.id == idx and isinstance(node.right, ast.Constant) and node.right.value == 1)
+
+
+def _slice_elems(sl):
+    return list(sl.elts) if isinstance(sl, ast.Tuple) else [sl]
+
+
+def e2_check(root=None):
+    """-> (number of prange loops that write arrays, list of problems); walks every .py file under pde/"""
     problems, loops = [], 0
-    d = os.path.join(paths.REPO, "pde", "backends", "numba", "operators")
-    for fn in sorted(os.listdir(d)):
-        if not fn.endswith(".py"):
-            continue
-        tree = ast.parse(open(os.path.join(d, fn)).read())
-        for node in ast.walk(tree):
-            if isinstance(node, ast.For) and isinstance(node.iter, ast.Call) and \
-                    isinstance(node.iter.func, ast.Attribute) and node.iter.func.attr == "prange":
-                loops += 1
+    root = root or os.path.join(paths.REPO, "pde")
+    for dirpath, _dirs, files in sorted(os.walk(root)):
+        for fn in sorted(files):
+            if not fn.endswith(".py"):
+                continue
+            path = os.path.join(dirpath, fn)
+            rel = os.path.relpath(path, root)
+            try:
+                tree = ast.parse(open(path).read())
+            except SyntaxError as e:  # noqa
+                problems.append(f"{rel}: cannot be parsed: {e}")
+                continue
+            funcs = [n for n in ast.walk(tree) if isinstance(n, ast.FunctionDef)]
+            for node in ast.walk(tree):
+                if not (isinstance(node, ast.For) and isinstance(node.iter, ast.Call) and
+                        ast.unparse(node.iter.func) in ("nb.prange", "numba.prange", "prange")):
+                    continue
+                if not isinstance(node.target, ast.Name):
+                    problems.append(f"{rel}:{node.lineno}: prange loop without a simple index variable")
+                    continue
                 idx = node.target.id
+                stores = [s for s in ast.walk(node) if isinstance(s, ast.Subscript) and isinstance(s.ctx, ast.Store)]
+                if not stores:
+                    # a loop without array writes (the scalar reduction numba compiles to probe the threading layer)
+                    if any(isinstance(s, ast.Subscript) for s in ast.walk(node)):
+                        problems.append(f"{rel}:{node.lineno}: prange loop reads arrays but writes none (reduction?)")
+                    continue
+                loops += 1
+                # innermost enclosing function: its second parameter is the output array
+                encl = [f for f in funcs if any(n is node for n in ast.walk(f))]
+                encl.sort(key=lambda f: sum(1 for _ in ast.walk(f)))
                 out_names = {"out"}
-                # aliases like out_r, out_z = out  /  out_rr = out[0, 0]
-                for fnode in ast.walk(tree):
-                    if isinstance(fnode, ast.FunctionDef) and node in ast.walk(fnode):
-                        for st in ast.walk(fnode):
-                            if isinstance(st, ast.Assign):
-                                src = ast.unparse(st.value)
-                                if src == "out" or src.startswith("out["):
-                                    for t in st.targets:
-                                        for n in ast.walk(t):
-                                            if isinstance(n, ast.Name):
-                                                out_names.add(n.id)
+                if encl:
+                    a = encl[0].args.args
+                    if len(a) >= 2:
+                        out_names.add(a[1].arg)
+                    # aliases like `out_r, out_z = out` / `out_rr = out[0, 0]`
+                    def _is_out(v):
+                        if isinstance(v, ast.Tuple):
+                            return bool(v.elts) and all(_is_out(e) for e in v.elts)
+                        if isinstance(v, ast.Subscript):
+                            return _is_out(v.value)
+                        return isinstance(v, ast.Name) and v.id in out_names
+                    for st in ast.walk(encl[0]):
+                        if isinstance(st, ast.Assign) and _is_out(st.value):
+                            for t in st.targets:
+                                for n in ast.walk(t):
+                                    if isinstance(n, ast.Name):
+                                        out_names.add(n.id)
                 for sub in ast.walk(node):
-                    if isinstance(sub, (ast.Assign, ast.AugAssign)):
-                        targets = sub.targets if isinstance(sub, ast.Assign) else [sub.target]
-                        for t in targets:
-                            if isinstance(t, ast.Subscript) and isinstance(t.value, ast.Name):
-                                name = t.value.id
-                                text = ast.unparse(t.slice)
-                                if name in out_names:
-                                    if f"{idx} - 1" not in text:
-                                        problems.append(f"{fn}:{sub.lineno}: write to {name}[{text}] does not use own index {idx}-1")
-                                elif name.startswith("arr"):
-                                    problems.append(f"{fn}:{sub.lineno}: kernel writes its input {name}[{text}]")
-                    if isinstance(sub, ast.Subscript) and isinstance(sub.ctx, ast.Load) and isinstance(sub.value, ast.Name) \
-                            and sub.value.id in out_names:
-                        text = ast.unparse(sub.slice)
-                        if f"{idx} - 1" not in text:
-                            problems.append(f"{fn}:{sub.lineno}: kernel reads {sub.value.id}[{text}] of another iteration")
+                    if isinstance(sub, ast.Subscript) and isinstance(sub.value, ast.Name):
+                        name, text = sub.value.id, ast.unparse(sub.slice)
+                        own = any(_is_own_index(e, idx) for e in _slice_elems(sub.slice))
+                        if isinstance(sub.ctx, ast.Store):
+                            if name not in out_names:
+                                problems.append(f"{rel}:{sub.lineno}: parallel loop writes {name}[{text}], which is not the output array")
+                            elif not own:
+                                problems.append(f"{rel}:{sub.lineno}: write to {name}[{text}] does not use own index {idx}-1")
+                        elif name in out_names and not own:
+                            problems.append(f"{rel}:{sub.lineno}: kernel reads {name}[{text}] of another iteration")
+                    elif isinstance(sub, ast.Subscript) and isinstance(sub.ctx, ast.Store):
+                        problems.append(f"{rel}:{sub.lineno}: parallel loop writes through {ast.unparse(sub.value)}[...]")
+                    if isinstance(sub, ast.Call) and sub is not node.iter and ast.unparse(sub.func) not in PURE_CALLS:
+                        problems.append(f"{rel}:{sub.lineno}: call of {ast.unparse(sub.func)}(...) inside a parallel loop is not inspected")
+                    if isinstance(sub, ast.AugAssign) and isinstance(sub.target, ast.Name):
+                        # accumulators must be local to one iteration: assigned inside the loop body before use
+                        assigned = any(isinstance(s, ast.Assign) and any(isinstance(t, ast.Name) and t.id == sub.target.id for t in s.targets)
+                                       for s in ast.walk(node))
+                        if not assigned:
+                            problems.append(f"{rel}:{sub.lineno}: `{sub.target.id}` accumulates across iterations of a loop that writes arrays")
     return loops, problems
 
 
 # ------------------------------------------------------------------------------------------
+def _finite_case(c):
+    """only finite conditions with a finite virtual-point formula (Robin: 2 + dx*gamma != 0)"""
+    g = c["grid"]
+    try:
+        for (ax, _up), s in c["sides"].items():
+            for arr in (s.get("v"), s.get("c")):
+                for x in arr or []:
+                    Fraction(x)
+            if "ixed" in s["kind"]:
+                dx = Fraction(g["bounds"][ax][1] - g["bounds"][ax][0]) / g["shape"][ax]
+                if any(2 + dx * Fraction(x) == 0 for x in s["v"]):
+                    return False
+    except (ValueError, OverflowError, TypeError):
+        return False
+    return True
+
+
 def gen_case(rng, hist, force_op=None):
     while True:
         c = c02.gen_case(rng, lambda *a, **k: None)
@@ -106,14 +193,26 @@ def gen_case(rng, hist, force_op=None):
             # normal-only conditions leave the other components' virtual points undefined; operators that
             # read them (vector_gradient, vector_laplace) have no defined result to compare
             continue
-        opts = dict(rng.choice(c01.OPS[cls][op]))
+        if not _finite_case(c):
+            continue
+        optl = [o for o in c01.OPS[cls][op] if "corner_weight" not in o]
+        opts = dict(rng.choice(optl))
+        if cls == "cart" and op == "laplace" and len(c["grid"]["shape"]) == 2 and NINE_POINT and rng.random() < 0.3:
+            opts = dict(rng.choice(NINE_POINT))   # the documented 9-point Laplacian exists for 2-d Cartesian grids only
         if cls == "sph" and c["rank"] >= 1:
             opts["safe"] = False
         c["op"], c["opts"], c["cls"] = op, opts, cls
         return c
 
 
+def _has_expression_bc(bcs):
+    from pde.grids.boundaries.local import ExpressionBC
+    return any(isinstance(b, ExpressionBC) for ax in bcs for b in ax)
+
+
 def real_routes(arg):
+    """all routes of the real code for one case -> {route name: array | 'EXC ...'}; every `out` array is pre-filled
+    with NaN so that a cell a route does not write is seen"""
     import logging
     import importlib
     import pde
@@ -123,13 +222,15 @@ def real_routes(arg):
     logging.getLogger("pde").setLevel(logging.ERROR)
     case, jit = arg
     grid = c02.make_grid(case["grid"])
-    rank, op, opts, t = case["rank"], case["op"], case["opts"], case["t"]
+    rank, op, opts, t, spec, cls = case["rank"], case["op"], case["opts"], case["t"], case["spec"], case["cls"]
     rout = c01.RANKS[op][1]
-    fcls = [pde.ScalarField, pde.VectorField, pde.Tensor2Field][rank]
+    fcls = [pde.ScalarField, pde.VectorField, pde.Tensor2Field]
     valid = tuple([slice(None)] * rank + [slice(1, -1)] * grid.num_axes)
     data = case["data"][valid].copy()
     out = {}
     oshape = (grid.dim,) * rout + tuple(grid.shape)
+    meth = METHOD_OF[op]
+    nine = "corner_weight" in opts
 
     def attempt(name, fn):
         try:
@@ -137,33 +238,64 @@ def real_routes(arg):
         except Exception as e:  # noqa
             out[name] = f"EXC {type(e).__name__}: {e}"[:300]
 
-    f = fcls(grid, data=data.copy())
-    attempt("field.apply_operator", lambda: f.apply_operator(op, bc=case["spec"], args={"t": t}, **opts).data)
-    if op in ("laplace", "gradient", "divergence", "gradient_squared", "vector_gradient", "vector_laplace", "tensor_divergence"):
-        meth = {"laplace": "laplace", "gradient": "gradient", "divergence": "divergence", "gradient_squared": "gradient_squared",
-                "vector_gradient": "gradient", "vector_laplace": "laplace", "tensor_divergence": "divergence"}[op]
-        attempt("field." + meth, lambda: getattr(f, meth)(bc=case["spec"], args={"t": t}, **opts).data)
-    nb_op = None
-    try:
-        nb_op = grid.make_operator(op, bc=case["spec"], backend="numba", **opts)
-    except Exception as e:  # noqa
-        out["make_operator(numba)"] = f"EXC {type(e).__name__}: {e}"[:300]
-    if nb_op is not None:
-        attempt("make_operator(numba)", lambda: nb_op(data.copy(), args=numba_dict(t=float(t))))
+    def field():
+        return fcls[rank](grid, data=data.copy())
+
+    def out_field():
+        return fcls[rout](grid, data=np.full(oshape, np.nan))
+
+    def via_out_field(call):
+        o = out_field()
+        r = call(o)
+        assert r is o, "the returned field is not the `out` field"
+        return o.data
+
+    bcs = grid.get_boundary_conditions(spec, rank=rank)
+    # ---- field methods ---------------------------------------------------------------------------------
+    attempt("field.apply_operator", lambda: field().apply_operator(op, bc=spec, args={"t": t}, **opts).data)
+    attempt("field." + meth, lambda: getattr(field(), meth)(bc=spec, args={"t": t}, **opts).data)
+    attempt("field.apply_operator(out=)", lambda: via_out_field(
+        lambda o: field().apply_operator(op, bc=spec, out=o, args={"t": t}, **opts)))
+    attempt(f"field.{meth}(out=)", lambda: via_out_field(
+        lambda o: getattr(field(), meth)(bc=spec, out=o, args={"t": t}, **opts)))
+    attempt("field.apply_operator(bc=BoundariesList)", lambda: field().apply_operator(op, bc=bcs, args={"t": t}, **opts).data)
+    attempt(f"field.{meth}(bc=BoundariesList)", lambda: getattr(field(), meth)(bc=bcs, args={"t": t}, **opts).data)
+    # ---- backends ----------------------------------------------------------------------------------------
+    # a backend takes part iff it registers the operator for this grid (the numpy backend registers no differential
+    # operator of its own: its routes are the interpreted conditions in front of the numba kernels, i.e. the routes above)
+    for bname in ("numpy", "numba", "scipy"):
+        try:
+            registered = op in get_backend(bname).get_registered_operators(grid)
+        except Exception as e:  # noqa
+            out[f"backend {bname}"] = f"EXC {type(e).__name__}: {e}"[:300]
+            continue
+        if not registered:
+            continue
+        if bname == "scipy":
+            # the scipy operators take no `central`/`conservative`/`corner_weight` option, and their Laplacians are
+            # documented for uniform discretizations only
+            if nine or any(k not in ("method",) for k in opts):
+                continue
+            if op in ("laplace", "vector_laplace") and len(set(np.round(grid.discretization, 12))) != 1:
+                continue
+        args_b = numba_dict(t=float(t)) if bname == "numba" else {"t": float(t)}
+        attempt(f"field.{meth}(backend={bname})", lambda: getattr(field(), meth)(bc=spec, backend=bname, args={"t": t}, **opts).data)
+        try:
+            b_op = grid.make_operator(op, bc=spec, backend=bname, **opts)
+        except Exception as e:  # noqa
+            out[f"make_operator({bname})"] = f"EXC {type(e).__name__}: {e}"[:300]
+            continue
+        attempt(f"make_operator({bname})", lambda: b_op(data.copy(), args=args_b))
 
         def with_out():
-            o = np.full(oshape, -777.0)
-            r = nb_op(data.copy(), out=o, args=numba_dict(t=float(t)))
-            assert r is o or np.shares_memory(r, o) or r is None
+            o = np.full(oshape, np.nan)
+            r = b_op(data.copy(), out=o, args=args_b)
+            assert r is None or r is o or np.shares_memory(r, o), "result is not the `out` array"
             return o
-        attempt("make_operator(numba,out=)", with_out)
-    if case["cls"] == "cart" and op in c01.SCIPY_OPS and opts.get("method", "central") == "central" \
-            and (op not in ("laplace", "vector_laplace") or len(set(np.round(grid.discretization, 12))) == 1):
-        def scipy_route():
-            sp_op = grid.make_operator(op, bc=case["spec"], backend="scipy", **opts)
-            return sp_op(data.copy(), args={"t": float(t)})
-        attempt("make_operator(scipy)", scipy_route)
-    bcs = grid.get_boundary_conditions(case["spec"], rank=rank)
+        attempt(f"make_operator({bname},out=)", with_out)
+        attempt(f"make_operator({bname},bc=BoundariesList)",
+                lambda: grid.make_operator(op, bc=bcs, backend=bname, **opts)(data.copy(), args=args_b))
+    # ---- ghost cells first, then the bare kernel ---------------------------------------------------------------
     no_bc = grid.make_operator_no_bc(op, backend="numba", **opts)
 
     def nobc_interp():
@@ -181,16 +313,15 @@ def real_routes(arg):
         no_bc(full, o)
         return o
     attempt("compiled_setter+no_bc", nobc_compiled)
-    if op == "laplace" and not any(s["kind"].startswith("expr") for s in case["sides"].values()):
+    # ---- the sparse matrix of the Poisson solvers ----------------------------------------------------------
+    # (5-point / conservative stencils only; expression conditions have no matrix data)
+    if op == "laplace" and not _has_expression_bc(bcs) and not (nine and opts["corner_weight"] != 0) \
+            and not (cls == "sph" and not opts.get("conservative", True)):
         def matrix_route():
-            mod = importlib.import_module("pde.backends.scipy.operators." + {"cart": "cartesian", "polar": "polar_sym", "sph": "spherical_sym", "cyl": "cylindrical_sym"}[case["cls"]])
-            if case["cls"] == "sph" and not opts.get("conservative", True):
-                raise LookupError("matrix route implements the conservative stencil only")
+            mod = importlib.import_module("pde.backends.scipy.operators." + MATRIX_MODS[cls])
             m, v = mod._get_laplace_matrix(bcs)
             return (m.tocsc().dot(data.ravel()) + v.toarray()[:, 0]).reshape(grid.shape)
         attempt("sparse-matrix", matrix_route)
-        if isinstance(out.get("sparse-matrix"), str) and "conservative stencil only" in out["sparse-matrix"]:
-            del out["sparse-matrix"]
     return out
 
 
@@ -199,7 +330,6 @@ def complex_routes(arg):
     real part of the data (the conditions have real values)"""
     import logging
     import pde
-    from pde import get_backend
     from pde.backends.numba.utils import numba_dict
 
     logging.getLogger("pde").setLevel(logging.ERROR)
@@ -233,38 +363,231 @@ def complex_routes(arg):
     return out
 
 
+# ------------------------------------------------------------------------------------------
+# thread and schedule legs: every operator with a prange kernel
+def _fam_ops(fam):
+    if fam == "cart2":
+        ops = [("laplace", {}), ("gradient", {"method": "central"}), ("gradient", {"method": "forward"}),
+               ("gradient_squared", {"central": True}), ("gradient_squared", {"central": False}), ("divergence", {"method": "central"}),
+               ("divergence", {"method": "backward"}), ("vector_gradient", {}), ("vector_laplace", {}), ("tensor_divergence", {})]
+        if NINE_POINT:
+            ops.insert(1, ("laplace", {"corner_weight": 0.5}))
+        return ops
+    if fam == "cart3":
+        return [("laplace", {}), ("gradient", {"method": "central"}), ("gradient_squared", {"central": True}),
+                ("gradient_squared", {"central": False}), ("divergence", {"method": "central"}), ("vector_laplace", {})]
+    return [("laplace", {}), ("gradient", {}), ("gradient_squared", {"central": True}), ("gradient_squared", {"central": False}),
+            ("divergence", {}), ("vector_gradient", {}), ("vector_laplace", {}), ("tensor_divergence", {})]
+
+
+FAMILIES = ("cart2", "cart3", "cyl")
+# operators whose full compiled route (`make_operator` with the compiled ghost-cell setter around the parallel kernel) is run too
+FULL_ROUTE = {"cart2": [("laplace", {}), ("divergence", {"method": "central"})], "cart3": [("laplace", {})], "cyl": [("laplace", {})]}
+
+
+def _fam_grid(fam):
+    import pde
+    if fam == "cart2":
+        return pde.CartesianGrid([[0, 3], [-1, 2]], [12, 10], periodic=[False, True]), \
+            {"x-": {"value": 1.5}, "x+": {"derivative": -0.5}, "y": "periodic"}
+    if fam == "cart3":
+        return pde.CartesianGrid([[0, 3], [-1, 2], [0, 1]], [4, 3, 2]), \
+            {"x": {"value": 1.5}, "y": {"derivative": 0.25}, "z": {"curvature": 0.1}}
+    return pde.CylindricalSymGrid((0.5, 2.0), (0, 3), [6, 4]), {"r-": {"derivative": 0.5}, "r+": {"value": 0.25}, "z": {"value": 1}}
+
+
+def _op_name(op, opts):
+    return op + ("" if not opts else "[" + ",".join(f"{k}={v}" for k, v in sorted(opts.items())) + "]")
+
+
+def _dispatchers(fn, depth=0, seen=None):
+    """numba dispatchers reachable from an operator implementation: the kernel itself or, for the vectorised Cartesian
+    operators (plain Python functions around scalar kernels), through closure cells"""
+    seen = seen if seen is not None else set()
+    if id(fn) in seen or depth > 4:
+        return []
+    seen.add(id(fn))
+    if hasattr(fn, "targetoptions") and hasattr(fn, "py_func"):
+        return [fn]
+    res = []
+    for cell in getattr(fn, "__closure__", None) or ():
+        try:
+            v = cell.cell_contents
+        except ValueError:
+            continue
+        for x in (v if isinstance(v, (list, tuple)) else [v]):
+            if callable(x):
+                res += _dispatchers(x, depth + 1, seen)
+    return res
+
+
+def _parallel_info(kernel):
+    """[(kernel name, parallel target option, compiled signatures, parallel loops found by numba's parfor pass)]"""
+    info = []
+    for d in _dispatchers(kernel):
+        n_par = 0
+        for sig in d.signatures:
+            md = getattr(d.overloads[sig], "metadata", None) or {}
+            diag = md.get("parfor_diagnostics")
+            if diag is not None:
+                n_par += len(getattr(diag, "initial_parfors", []) or [])
+        info.append((d.py_func.__qualname__, bool(d.targetoptions.get("parallel")), len(d.signatures), n_par))
+    return info
+
+
 def thread_case(arg):
-    """results of three operators on a grid above the (lowered) threshold with the configured thread count"""
+    """results of every operator with a prange kernel on a grid above the (lowered) threshold with the configured thread
+    count (nt = 0: source semantics); per operator the field route, the bare kernel and - for some - the compiled wrapper"""
+    import logging
     import pde
     import numba
 
-    shape, seed, nt = arg
-    if nt:
+    logging.getLogger("pde").setLevel(logging.ERROR)
+    fam, seed, nt = arg
+    jit = not numba.config.DISABLE_JIT
+    if nt and jit:
         numba.set_num_threads(nt)
     pde.config["backend.numba.multithreading"] = "always"
     pde.config["backend.numba.multithreading_threshold"] = 16
     rs = np.random.RandomState(seed)
-    res = {"threads": numba.get_num_threads()}
-    if len(shape) == 2:
-        g = pde.CartesianGrid([[0, 3], [-1, 2]], shape, periodic=[False, True])
-        bc = {"x-": {"value": 1.5}, "x+": {"derivative": -0.5}, "y": "periodic"}
-        bcv = {"x": {"value": [1.0, 2.0]}, "y": "periodic"}
-    else:
-        g = pde.CartesianGrid([[0, 3], [-1, 2], [0, 1]], shape)
-        bc = {"x": {"value": 1.5}, "y": {"derivative": 0.25}, "z": {"curvature": 0.1}}
-        bcv = {"x": {"value": 1.0}, "y": {"derivative": 0.25}, "z": {"value": 0.0}}
-    f = pde.ScalarField(g, rs.uniform(-1, 1, g.shape))
-    v = pde.VectorField(g, rs.uniform(-1, 1, (g.dim,) + tuple(g.shape)))
-    res["laplace"] = f.laplace(bc).data.tobytes()
-    res["gradient"] = f.gradient(bc).data.tobytes()
-    res["divergence"] = v.divergence(bcv).data.tobytes()
-    res["gradient_squared"] = f.gradient_squared(bc).data.tobytes()
-    gc = pde.CylindricalSymGrid(2.0, (0, 3), [shape[0], shape[1]])
-    fc = pde.ScalarField(gc, rs.uniform(-1, 1, gc.shape))
-    res["cyl-laplace"] = fc.laplace({"r": {"derivative": 0}, "z": {"value": 1}}).data.tobytes()
+    grid, bc = _fam_grid(fam)
+    res = {"threads": numba.get_num_threads() if jit else 0, "jit": jit, "cells": int(np.prod(grid.shape)),
+           "results": {}, "parallel": {}}
+    fcls = [pde.ScalarField, pde.VectorField, pde.Tensor2Field]
+    for op, opts in _fam_ops(fam):
+        name = _op_name(op, opts)
+        rin, rout = c01.RANKS[op]
+        data = rs.uniform(-1, 1, (grid.dim,) * rin + tuple(grid.shape))
+        try:
+            f = fcls[rin](grid, data.copy())
+            r1 = f.apply_operator(op, bc=bc, **opts).data
+            kernel = grid.make_operator_no_bc(op, backend="numba", **opts)
+            full = f._data_full.copy()            # ghost cells as set by the call above
+            o = np.full((grid.dim,) * rout + tuple(grid.shape), np.nan)
+            kernel(full, o)
+            res["results"][name] = np.array(r1, dtype=float).tobytes()
+            res["results"][name + "/kernel"] = o.tobytes()
+            if (op, opts) in FULL_ROUTE[fam]:
+                res["results"][name + "/make_operator"] = np.array(
+                    grid.make_operator(op, bc=bc, backend="numba", **opts)(data.copy()), dtype=float).tobytes()
+            if jit:
+                res["parallel"][name] = _parallel_info(kernel)
+        except Exception as e:  # noqa
+            res["results"][name] = f"EXC {type(e).__name__}: {e}"[:300]
+    if jit:
+        try:
+            res["layer"] = numba.threading_layer()
+        except Exception as e:  # noqa
+            res["layer"] = f"none ({e})"[:120]
     return res
 
 
+class _Log:
+    def __init__(self):
+        self.writes, self.reads = [], []
+
+
+class _Traced:
+    """array proxy for executing kernel source: logs element writes and element reads by flat index of the base array;
+    basic indexing that yields a sub-array (aliases such as `out_r, out_z = out`) returns a proxy of the view"""
+
+    def __init__(self, data, ids, log):
+        self._d, self._i, self._l = data, ids, log
+
+    @property
+    def shape(self):
+        return self._d.shape
+
+    def __len__(self):
+        return len(self._d)
+
+    def __iter__(self):
+        for k in range(len(self._d)):
+            yield self[k]
+
+    def __getitem__(self, idx):
+        d = self._d[idx]
+        if isinstance(d, np.ndarray):
+            return _Traced(d, self._i[idx], self._l)
+        self._l.reads.append(int(self._i[idx]))
+        return d
+
+    def __setitem__(self, idx, val):
+        ids = np.atleast_1d(self._i[idx]).ravel()
+        vals = np.broadcast_to(np.asarray(val, dtype=float), np.shape(self._d[idx])).ravel() if ids.size > 1 else [float(val)]
+        for i_, v_ in zip(ids, vals):
+            self._l.writes.append((int(i_), float(v_)))
+        self._d[idx] = val
+
+
+def schedule_case(arg):
+    """executes the real kernel source of every prange operator of one family with the prange iterations in a random
+    permutation, on traced arrays (needs NUMBA_DISABLE_JIT=1) -> per operator: serial result, permuted result, logged
+    writes of the permuted run, and the violations of the kernel-shape hypothesis seen in the trace"""
+    import logging
+    import random
+    import pde
+    import numba
+
+    logging.getLogger("pde").setLevel(logging.ERROR)
+    assert numba.config.DISABLE_JIT, "the schedule leg executes kernel source"
+    fam, seed = arg
+    pde.config["backend.numba.multithreading"] = "always"
+    pde.config["backend.numba.multithreading_threshold"] = 16
+    rs = np.random.RandomState(seed)
+    prng = random.Random(seed)
+    grid, bc = _fam_grid(fam)
+    fcls = [pde.ScalarField, pde.VectorField, pde.Tensor2Field]
+    orig_prange = numba.prange
+    res = {}
+    for op, opts in _fam_ops(fam):
+        name = _op_name(op, opts)
+        rin, rout = c01.RANKS[op]
+        data = rs.uniform(-1, 1, (grid.dim,) * rin + tuple(grid.shape))
+        rec = {}
+        try:
+            f = fcls[rin](grid, data.copy())
+            f.set_ghost_cells(bc)
+            full = f._data_full.copy()
+            oshape = (grid.dim,) * rout + tuple(grid.shape)
+            kernel = grid.make_operator_no_bc(op, backend="numba", **opts)
+            serial = np.full(oshape, np.nan)
+            full_s = full.copy()
+            kernel(full_s, serial)
+            orders = []
+
+            def permuted(*a):
+                idx = list(range(*a))
+                prng.shuffle(idx)
+                if len(idx) > 1 and idx == sorted(idx):   # never the serial order (probability 1/n! per loop otherwise)
+                    idx = idx[1:] + idx[:1]
+                orders.append(idx)
+                return idx
+            log_o, log_a = _Log(), _Log()
+            perm = np.full(oshape, np.nan)
+            full_p = full.copy()
+            numba.prange = permuted
+            try:
+                kernel(_Traced(full_p, np.arange(full_p.size).reshape(full_p.shape), log_a),
+                       _Traced(perm, np.arange(perm.size).reshape(perm.shape), log_o))
+            finally:
+                numba.prange = orig_prange
+            cells = [w[0] for w in log_o.writes]
+            rec = {"serial": serial.tobytes(), "permuted": perm.tobytes(), "size": int(perm.size),
+                   "writes": log_o.writes, "pranges": len(orders), "iterations": sum(len(o_) for o_ in orders),
+                   "identity_order": all(o_ == sorted(o_) for o_ in orders),
+                   "out_reads": len(log_o.reads), "duplicate_writes": len(cells) - len(set(cells)),
+                   # the 9-point Laplacian sets the four corner points of its input before the loop: writes to the
+                   # input are reported with their positions
+                   "input_writes": [w[0] for w in log_a.writes], "input_shape": list(full_p.shape),
+                   "input_changed": not np.array_equal(full_p, full_s)}
+        except Exception as e:  # noqa
+            rec = {"error": f"EXC {type(e).__name__}: {e}"[:300]}
+        res[name] = rec
+    return res
+
+
+# ------------------------------------------------------------------------------------------
 def model_request(case):
     r = c02.model_request(case)
     g = case["grid"]
@@ -273,9 +596,173 @@ def model_request(case):
     for k in ("method", "central", "conservative"):
         if k in case["opts"]:
             cfg[k] = case["opts"][k]
+    if "corner_weight" in case["opts"]:
+        cfg["corner_weight"] = q(Fraction(case["opts"]["corner_weight"]).limit_denominator(1000))
+        cfg["periodic"] = [bool(x) for x in g["periodic"]]
     return {"cfg": cfg, "data": r["data"], "faces": r["faces"]}
 
 
+def case_record(c):
+    """JSON-able record from which `replay` rebuilds the case"""
+    return {"grid": c["grid"], "op": c["op"], "opts": c["opts"], "spec": repr(c["spec"]), "t": c["t"],
+            "data": [float(x) for x in c["data"].ravel()]}
+
+
+def case_from_record(r):
+    g = r["grid"]
+    cls = CLS[g["cls"]]
+    rank = c01.RANKS[r["op"]][0]
+    dim = c01.DIM.get(cls, len(g["shape"]))
+    data = np.array(r["data"], dtype=float).reshape([dim] * rank + [n + 2 for n in g["shape"]])
+    return {"grid": g, "rank": rank, "op": r["op"], "opts": r["opts"], "t": r["t"], "spec": eval(r["spec"], dict(EVAL_ENV)),
+            "data": data, "cls": cls}
+
+
+def route_scale(case):
+    g = case["grid"]
+    dxmin = min((b[1] - b[0]) / n_ for b, n_ in zip(g["bounds"], g["shape"]))
+    d = case["data"]
+    return float(np.abs(d[np.abs(d) < 900]).max()) / dxmin ** 2
+
+
+def judge_routes(case, routes):
+    """the route monitor: `routes` = {name[tag]: array | 'EXC ..'} -> list of (what, observed, key, extra) failures.
+    Non-finite values and shape mismatches count as differences; the scale is taken from finite values only."""
+    fails = []
+    op, cls = case["op"], case["cls"]
+    ok = {}
+    for name, arr in routes.items():
+        if isinstance(arr, str):
+            fails.append((f"route {name.split('[')[0]} raised while others return a result", arr,
+                          {"route": name.split("[")[0], "op": op}, {"route": name}))
+        else:
+            ok[name] = np.asarray(arr, dtype=float).ravel()
+    if not ok:
+        return fails, None, None
+    # reference: the first route whose result is finite everywhere (a route with non-finite values fails below)
+    ref_name = next((n_ for n_, a in ok.items() if np.all(np.isfinite(a))), next(iter(ok)))
+    ref = ok[ref_name]
+    fin = ref[np.isfinite(ref)]
+    scale = 1.0 + (float(np.abs(fin).max()) if fin.size else 0.0) + route_scale(case)
+    for name, arr in ok.items():
+        if arr_far(arr, ref, 1e-10 * scale):
+            if arr.shape == ref.shape:
+                with np.errstate(invalid="ignore"):
+                    d = np.abs(arr - ref)
+                i_ = int(np.argmax(np.where(np.isfinite(d), d, np.inf)))
+                obs = {ref_name: float(ref[i_]), name: float(arr[i_])}
+            else:
+                i_, obs = -1, {ref_name: list(ref.shape), name: list(arr.shape)}
+            fails.append((f"{cls} {op}: routes disagree", obs,
+                          {"op": op, "pair": sorted([ref_name.split("[")[0], name.split("[")[0]])[-1]},
+                          {"routes": [ref_name, name], "index": i_}))
+            break
+    return fails, (ref_name, ref), scale
+
+
+def judge_complex(case, rr):
+    fails = []
+    op, cls = case["op"], case["cls"]
+    if isinstance(rr, str):
+        return [(f"{cls} {op}: complex data raised", rr[-400:], {"op": op, "leg": "complex"})]
+    ref = np.asarray(rr["field"])
+    fin = np.abs(ref[np.isfinite(ref)])
+    sc = 1.0 + (float(fin.max()) if fin.size else 0.0)
+    for name in ("make_operator", "set_ghost_cells+no_bc"):
+        if arr_far(rr[name], ref, 1e-10 * sc):
+            fails.append((f"{cls} {op}: routes disagree on complex data", {"routes": ["field", name]}, {"op": op, "leg": "complex"}))
+    if arr_far(ref.real, rr["real-reference"], 1e-10 * sc):
+        fails.append((f"{cls} {op}: complex and real evaluation differ", "real part of the complex result != result of the real part",
+                      {"op": op, "leg": "complex-vs-real"}))
+    return fails
+
+
+def judge_threads(fam, runs, r_serial):
+    """runs = {nt: result of thread_case | 'EXC..'} -> (validity problems of the leg itself, monitor failures)"""
+    problems, fails = [], []
+    base = runs.get(1)
+    for nt, r in runs.items():
+        if isinstance(r, str):
+            problems.append((nt, "runs", r[-400:], "thread run failed"))
+            continue
+        if r["threads"] != nt:
+            problems.append((nt, f"{nt} threads", r["threads"], "numba did not take the requested thread count"))
+        if r["cells"] < 16:
+            problems.append((nt, ">= 16 cells", r["cells"], "grid below the lowered multithreading threshold"))
+        if not isinstance(r.get("layer"), str) or r["layer"].startswith("none"):
+            problems.append((nt, "a threading layer", r.get("layer"), "no parallel region was executed in this process"))
+        for op, opts in _fam_ops(fam):
+            name = _op_name(op, opts)
+            if isinstance(r["results"].get(name), str):
+                fails.append((nt, name, r["results"][name], "a result", f"{fam} {name}: operator raised in the thread leg",
+                              {"op": op, "leg": "threads"}))
+                continue
+            info = r["parallel"].get(name) or []
+            if not any(par and npar >= 1 for _n, par, _s, npar in info):
+                problems.append((nt, "a kernel compiled with parallel=True containing >= 1 parallel loop", info,
+                                 f"{fam} {name}: the kernel did not run in parallel - the thread comparison would be vacuous"))
+        for k, blob in r["results"].items():
+            if isinstance(blob, str):
+                continue
+            opname = k.split("/")[0].split("[")[0]
+            a = np.frombuffer(blob)
+            if not np.all(np.isfinite(a)):
+                fails.append((nt, k, "non-finite values", "finite result", f"{fam} {k}: result contains non-finite values (unwritten cells?)",
+                              {"op": opname, "leg": "threads"}))
+            if isinstance(base, dict) and not isinstance(base["results"].get(k), (str, type(None))) and blob != base["results"][k]:
+                b = np.frombuffer(base["results"][k])
+                fails.append((nt, k, {"max_abs_diff": float(np.nanmax(np.abs(a - b))) if a.shape == b.shape else "shape"},
+                              "bit-identical to the single-thread run", f"{fam} {k}: multi-threaded result differs from serial",
+                              {"op": opname, "leg": "threads"}))
+            if isinstance(r_serial, dict) and not isinstance(r_serial["results"].get(k), (str, type(None))):
+                b = np.frombuffer(r_serial["results"][k])
+                if arr_far(a, b, 1e-11 * (1 + float(np.abs(b[np.isfinite(b)]).max() if np.isfinite(b).any() else 0.0))):
+                    fails.append((nt, k, {"max_abs_diff": float(np.nanmax(np.abs(a - b))) if a.shape == b.shape else "shape"},
+                                  "equal to the source-semantics run", f"{fam} {k}: compiled parallel kernel differs from its source semantics",
+                                  {"op": opname, "leg": "threads-vs-source"}))
+        # the field route and the bare kernel are the same kernel on the same padded array
+        for op, opts in _fam_ops(fam):
+            name = _op_name(op, opts)
+            a, b = r["results"].get(name), r["results"].get(name + "/kernel")
+            if isinstance(a, bytes) and isinstance(b, bytes) and a != b:
+                fails.append((nt, name, "differs", "field route = kernel on the same padded array",
+                              f"{fam} {name}: field route and bare kernel differ", {"op": op, "leg": "threads-field-vs-kernel"}))
+    if isinstance(r_serial, str):
+        problems.append((0, "runs", r_serial[-400:], "source-semantics run failed"))
+    return problems, fails
+
+
+def judge_schedule(fam, name, rec):
+    """hypotheses of the schedule theorem on the logged accesses of the real kernel + permuted = serial"""
+    op = name.split("[")[0]
+    if "error" in rec:
+        return [("runs", rec["error"], f"{fam} {name}: kernel source could not be executed on traced arrays", {"op": op, "leg": "schedule"})]
+    fails = []
+    if rec["duplicate_writes"]:
+        fails.append(("every output cell written once", f"{rec['duplicate_writes']} repeated writes",
+                      f"{fam} {name}: iterations of the parallel loop write the same output cell", {"op": op, "leg": "schedule-distinct-writes"}))
+    if rec["out_reads"]:
+        fails.append(("`out` is never read", f"{rec['out_reads']} reads", f"{fam} {name}: kernel reads its output array",
+                      {"op": op, "leg": "schedule-reads-out"}))
+    shp = rec["input_shape"]
+    corners = set()
+    if "corner_weight" in name and len(shp) == 2:
+        corners = {int(np.ravel_multi_index((i, j), shp)) for i in (0, shp[0] - 1) for j in (0, shp[1] - 1)}
+    stray = [w for w in rec["input_writes"] if w not in corners]
+    if stray:
+        fails.append(("the input array is not written", f"writes at flat indices {stray[:6]}", f"{fam} {name}: kernel writes its input array",
+                      {"op": op, "leg": "schedule-writes-input"}))
+    if len({w[0] for w in rec["writes"]}) != rec["size"]:
+        fails.append((f"all {rec['size']} output cells written", f"{len({w[0] for w in rec['writes']})} cells written",
+                      f"{fam} {name}: kernel leaves output cells unwritten", {"op": op, "leg": "schedule-coverage"}))
+    if rec["serial"] != rec["permuted"]:
+        a, b = np.frombuffer(rec["serial"]), np.frombuffer(rec["permuted"])
+        fails.append(("bit-identical to the serial order", {"max_abs_diff": float(np.nanmax(np.abs(a - b)))},
+                      f"{fam} {name}: result depends on the order of the parallel iterations", {"op": op, "leg": "schedule-order"}))
+    return fails
+
+
+# ------------------------------------------------------------------------------------------
 def run(ctx):
     from harness.common.lean import LeanBatch
 
@@ -287,6 +774,7 @@ def run(ctx):
     for p in problems:
         ctx.disagree("E2", {"kernel": p}, "iteration writes only its own output cell and reads only the input", p,
                      "hypothesis of parallel_schedule_independent is no longer established by the source")
+    n_fam_loops = sum(len(_fam_ops(f)) for f in FAMILIES)
     if loops < 10:
         ctx.disagree("E2", {"loops": loops}, ">= 10 prange loops", loops, "extractor found too few parallel kernels")
 
@@ -297,26 +785,63 @@ def run(ctx):
     cases += [gen_case(rng, ctx.hist, force_op="laplace") for _ in range(ctx.budget(60, 600))]
     batch = LeanBatch(ctx.workdir)
     reqs = [batch.add("c03.apply", model_request(c)) for c in cases]
-    # schedule model sanity (executes the definitions the theorem is about)
-    perm = list(range(9))
-    rng.shuffle(perm)
-    i_s = batch.add("c03.sched", {"vals": [q(rng.randint(-5, 5)) for _ in range(9)], "perm": perm})
+
+    # ---- schedule leg: real kernel source under permuted prange order, traced -------------------------------
+    sseed = rng.randint(0, 10 ** 6)
+    res_sched = run_many("harness.c03", "schedule_case", [(fam, sseed) for fam in FAMILIES], env={"NUMBA_DISABLE_JIT": "1"}, procs=3)
+    sched_reqs = {}
+    for fam, rr in zip(FAMILIES, res_sched):
+        if isinstance(rr, str):
+            ctx.disagree("schedule", {"family": fam, "seed": sseed}, "runs", rr[-400:], "schedule worker failed")
+            continue
+        for name, rec in rr.items():
+            if "error" in rec:
+                continue
+            # the Lean model executes the logged writes in the (permuted) order of the real run and in sorted order
+            ws = rec["writes"]
+            order = sorted(range(len(ws)), key=lambda k: ws[k][0])
+            sched_reqs[(fam, name)] = batch.add("c03.writes", {"size": rec["size"], "cells": [w[0] for w in ws],
+                                                               "vals": [q(w[1]) for w in ws], "order": order})
     answers = batch.run()
-    st, val = answers[i_s]
-    if st != "ok" or val[0] != val[1]:
-        ctx.disagree("schedule-model", {"perm": perm}, val, None, "model executions differ")
+    for fam, rr in zip(FAMILIES, res_sched):
+        if isinstance(rr, str):
+            continue
+        for name, rec in rr.items():
+            case = {"family": fam, "seed": sseed, "op": name}
+            ctx.count(case, nontrivial=True, leg="schedule")
+            ctx.hist("schedule", f"{fam}:{name}")
+            ctx.impl_traces += 1
+            ctx.monitor_evals += 1
+            for expected, observed, what, key in judge_schedule(fam, name, rec):
+                ctx.monitor_fail("schedule", case, observed, expected, what, key=key)
+            if "error" in rec:
+                continue
+            if rec["pranges"] < 1 or rec["identity_order"]:
+                ctx.disagree("schedule", case, ">= 1 prange loop executed in a non-trivial permutation",
+                             {"pranges": rec["pranges"], "identity": rec["identity_order"]},
+                             "the permutation did not reach the kernel: the schedule comparison would be vacuous")
+            st, val = answers[sched_reqs[(fam, name)]]
+            real = np.frombuffer(rec["permuted"])
+            if st != "ok":
+                ctx.disagree("schedule", case, f"model error {val}", None)
+                continue
+            for tag, mv in (("run order", val[0]), ("sorted order", val[1])):
+                model = np.array([float(unq(x)) if x is not None else np.nan for x in mv])
+                if model.shape != real.shape or not np.array_equal(model, real):
+                    ctx.disagree("schedule", dict(case, order=tag), "ParLoop.runWrites on the logged writes", "result of the real kernel",
+                                 "model of the parallel loop and the real kernel give different arrays")
+
+    # ---- routes ----------------------------------------------------------------------------------------
     res_s = run_many("harness.c03", "real_routes", [(c, False) for c in cases], env={"NUMBA_DISABLE_JIT": "1"}, procs=16)
     n_j = ctx.budget(16, 240)
     jit_ids = sorted(rng.sample(range(len(cases)), min(n_j, len(cases))))
     res_j = dict(zip(jit_ids, run_many("harness.c03", "real_routes", [(cases[i], True) for i in jit_ids],
                                        env={"NUMBA_DISABLE_JIT": "0"}, procs=16)))
     for ci, (c, ri) in enumerate(zip(cases, reqs)):
-        g = c["grid"]
-        key = {"grid": g, "op": c["op"], "opts": c["opts"], "spec": repr(c["spec"]), "t": c["t"],
-               "data": [float(x) for x in c["data"].ravel()]}
+        key = case_record(c)
         short = {k: key[k] for k in ("grid", "op", "opts", "spec", "t")}
         ctx.count(key, nontrivial=len(set(key["data"])) > 2, leg="routes")
-        ctx.hist("operator", f"{c['cls']}:{c['op']}")
+        ctx.hist("operator", f"{c['cls']}:{_op_name(c['op'], {k: v for k, v in c['opts'].items() if k != 'safe'})}")
         st, val = answers[ri]
         model = None
         if st == "ok":
@@ -332,117 +857,130 @@ def run(ctx):
                 continue
             for name, arr in rr.items():
                 routes[f"{name}[{tag}]"] = arr
-        ok_routes = {}
-        for name, arr in routes.items():
+        for name in routes:
             ctx.hist("route", name)
             ctx.impl_traces += 1
-            if isinstance(arr, str):
-                ctx.monitor_fail("routes", dict(short, route=name, data=key["data"]), arr, "a result",
-                                 f"route {name.split('[')[0]} raised while others return a result", key={"route": name.split("[")[0], "op": c["op"]})
-                continue
-            ok_routes[name] = np.asarray(arr, dtype=float).ravel()
-        if not ok_routes:
-            continue
-        dxmin = min((b[1] - b[0]) / n_ for b, n_ in zip(g["bounds"], g["shape"]))
-        ref_name = next(iter(ok_routes))
-        ref = ok_routes[ref_name]
-        scale = 1.0 + float(np.abs(ref).max()) + float(np.abs(c["data"][np.abs(c["data"]) < 900]).max()) / dxmin ** 2
         ctx.monitor_evals += 1
-        for name, arr in ok_routes.items():
-            if arr.shape != ref.shape or np.abs(arr - ref).max() > 1e-10 * scale:
-                i_ = int(np.argmax(np.abs(arr - ref))) if arr.shape == ref.shape else -1
-                ctx.monitor_fail("routes", dict(short, data=key["data"], routes=[ref_name, name], index=i_),
-                                 {ref_name: float(ref[i_]) if i_ >= 0 else list(ref.shape), name: float(arr[i_]) if i_ >= 0 else list(arr.shape)},
-                                 "all routes agree to round-off", f"{c['cls']} {c['op']}: routes disagree",
-                                 key={"op": c["op"], "pair": sorted([ref_name.split("[")[0], name.split("[")[0]])[-1]})
-                break
-        if model is not None and (model.shape != ref.shape or np.abs(model - ref).max() > 1e-10 * scale):
-            i_ = int(np.argmax(np.abs(model - ref))) if model.shape == ref.shape else -1
+        fails, refp, scale = judge_routes(c, routes)
+        for what, observed, fkey, extra in fails:
+            ctx.monitor_fail("routes", dict(key, **extra), observed, "all routes agree to round-off", what, key=fkey)
+        if model is not None and refp is not None and arr_far(model, refp[1], 1e-10 * scale):
+            ref_name, ref = refp
+            if model.shape == ref.shape:
+                with np.errstate(invalid="ignore"):
+                    d = np.abs(model - ref)
+                i_ = int(np.argmax(np.where(np.isfinite(d), d, np.inf)))
+            else:
+                i_ = -1
             ctx.disagree("routes", dict(short, data=key["data"], index=i_), float(model[i_]) if i_ >= 0 else list(model.shape),
                          float(ref[i_]) if i_ >= 0 else list(ref.shape), f"model differs from route {ref_name}")
 
     # ---- complex data -----------------------------------------------------------------------------------
     lin = [c for c in cases if c["op"] != "gradient_squared"]
     csub = rng.sample(lin, min(ctx.budget(40, 400), len(lin)))
-    res_c = run_many("harness.c03", "complex_routes", [(c, rng.randint(0, 10 ** 6)) for c in csub],
-                     env={"NUMBA_DISABLE_JIT": "1"}, procs=16)
-    for c, rr in zip(csub, res_c):
-        short = {"grid": c["grid"], "op": c["op"], "opts": c["opts"], "spec": repr(c["spec"]), "t": c["t"], "dtype": "complex"}
-        ctx.count(short, nontrivial=True, leg="complex")
+    cseeds = [rng.randint(0, 10 ** 6) for _ in csub]
+    res_c = run_many("harness.c03", "complex_routes", list(zip(csub, cseeds)), env={"NUMBA_DISABLE_JIT": "1"}, procs=16)
+    for c, cs, rr in zip(csub, cseeds, res_c):
+        rec = dict(case_record(c), dtype="complex", cseed=cs)
+        ctx.count({k: v for k, v in rec.items() if k != "data"}, nontrivial=True, leg="complex")
         ctx.impl_traces += 1
         ctx.monitor_evals += 1
-        if isinstance(rr, str):
-            ctx.monitor_fail("complex", short, rr[-400:], "a result", f"{c['cls']} {c['op']}: complex data raised",
-                             key={"op": c["op"], "leg": "complex"})
-            continue
-        ref = rr["field"]
-        sc = 1.0 + float(np.abs(ref).max())
-        for name in ("make_operator", "set_ghost_cells+no_bc"):
-            if rr[name].shape != ref.shape or np.abs(rr[name] - ref).max() > 1e-10 * sc:
-                ctx.monitor_fail("complex", dict(short, routes=["field", name]), float(np.abs(rr[name] - ref).max()),
-                                 "routes agree on complex data", f"{c['cls']} {c['op']}: routes disagree on complex data",
-                                 key={"op": c["op"], "leg": "complex"})
-        if np.abs(ref.real - rr["real-reference"]).max() > 1e-10 * sc:
-            ctx.monitor_fail("complex", short, float(np.abs(ref.real - rr["real-reference"]).max()),
-                             "real part of the complex result = result of the real part",
-                             f"{c['cls']} {c['op']}: complex and real evaluation differ", key={"op": c["op"], "leg": "complex-vs-real"})
+        for what, observed, fkey in judge_complex(c, rr):
+            ctx.monitor_fail("complex", rec, observed, "routes agree on complex data; real part = result of the real part", what, key=fkey)
 
     # ---- threads ---------------------------------------------------------------------------------------
-    shapes = [[12, 10]] + ([[6, 5, 4]] if ctx.tier == "thorough" else [])
-    seed = rng.randint(0, 10 ** 6)
-    for shape in shapes:
-        rr = run_many("harness.c03", "thread_case", [(shape, seed, nt) for nt in (1, 2, 16)],
-                      env={"NUMBA_DISABLE_JIT": "0", "NUMBA_NUM_THREADS": "16"}, procs=3)
-        runs = dict(zip((1, 2, 16), rr))
-        r_serial = run_many("harness.c03", "thread_case", [(shape, seed, 0)], env={"NUMBA_DISABLE_JIT": "1"}, procs=1)[0]
+    tseed = rng.randint(0, 10 ** 6)
+    jobs = [(fam, tseed, nt) for fam in FAMILIES for nt in (1, 2, 16)]
+    rr_t = run_many("harness.c03", "thread_case", jobs, env={"NUMBA_DISABLE_JIT": "0", "NUMBA_NUM_THREADS": "16"}, procs=9)
+    rr_s = run_many("harness.c03", "thread_case", [(fam, tseed, 0) for fam in FAMILIES], env={"NUMBA_DISABLE_JIT": "1"}, procs=3)
+    par_kernels = 0
+    for fi, fam in enumerate(FAMILIES):
+        runs = {nt: rr_t[fi * 3 + k] for k, nt in enumerate((1, 2, 16))}
         for nt, r in runs.items():
-            ctx.count({"threads": nt, "shape": shape, "seed": seed}, nontrivial=True, leg="threads")
-            ctx.hist("threads", f"{nt}:{'x'.join(map(str, shape))}")
+            ctx.count({"threads": nt, "family": fam, "seed": tseed}, nontrivial=True, leg="threads")
+            ctx.hist("threads", f"{nt}:{fam}")
             ctx.impl_traces += 1
-            if isinstance(r, str):
-                ctx.disagree("threads", {"threads": nt, "shape": shape}, "runs", r[-400:], "thread run failed")
-                continue
             ctx.monitor_evals += 1
-            for k in ("laplace", "gradient", "divergence", "gradient_squared", "cyl-laplace"):
-                if r[k] != runs[1][k]:
-                    a, b = np.frombuffer(r[k]), np.frombuffer(runs[1][k])
-                    ctx.monitor_fail("threads", {"threads": nt, "shape": shape, "seed": seed, "op": k},
-                                     {"max_abs_diff": float(np.abs(a - b).max())}, "bit-identical to the single-thread run",
-                                     f"{k}: multi-threaded result differs from serial", key={"op": k, "leg": "threads"})
-                if not isinstance(r_serial, str):
-                    a, b = np.frombuffer(r[k]), np.frombuffer(r_serial[k])
-                    if np.abs(a - b).max() > 1e-11 * (1 + np.abs(b).max()):
-                        ctx.monitor_fail("threads", {"threads": nt, "shape": shape, "seed": seed, "op": k},
-                                         {"max_abs_diff": float(np.abs(a - b).max())}, "equal to the source-semantics run",
-                                         f"{k}: compiled parallel kernel differs from its source semantics", key={"op": k, "leg": "threads-vs-source"})
+            if isinstance(r, dict) and nt == 16:
+                par_kernels += sum(1 for info in r["parallel"].values() for _n, par, _s, npar in info if par and npar >= 1)
+        problems, fails = judge_threads(fam, runs, rr_s[fi])
+        for nt, expected, observed, note in problems:
+            ctx.disagree("threads", {"threads": nt, "family": fam, "seed": tseed}, expected, observed, note)
+        for nt, name, observed, expected, what, fkey in fails:
+            ctx.monitor_fail("threads", {"threads": nt, "family": fam, "seed": tseed, "op": name}, observed, expected, what, key=fkey)
+    ctx.extra["parallel_kernels_executed_with_16_threads"] = par_kernels
+    ctx.extra["prange_operator_variants_in_thread_leg"] = n_fam_loops
 
 
+# ------------------------------------------------------------------------------------------
 def replay(ctx, rep):
-    """re-evaluate the recorded case through all routes of the real code and compare them pairwise"""
-    c = rep["case"]
-    if "data" not in c or "grid" not in c:
-        print("thread / extractor case:", c)
-        return False
-    g = c["grid"]
-    spec = eval(c["spec"], {"array": np.array, "nan": float("nan"), "inf": float("inf")})
-    cls = CLS[g["cls"]]
-    rank = c01.RANKS[c["op"]][0]
-    dim = c01.DIM.get(cls, len(g["shape"]))
-    data = np.array(c["data"]).reshape([dim] * rank + [n + 2 for n in g["shape"]])
-    case = {"grid": g, "rank": rank, "op": c["op"], "opts": c["opts"], "t": c["t"], "spec": spec, "data": data, "cls": cls,
-            "sides": {}}
-    # the sparse-matrix route needs to know whether expression conditions are present
-    case["sides"] = {0: {"kind": "expr" if "expression" in c["spec"] or "expr" in c["spec"] else "const"}}
-    res = real_routes((case, False))
-    ok_routes = {k: np.asarray(v, dtype=float).ravel() for k, v in res.items() if not isinstance(v, str)}
-    for k, v in res.items():
-        if isinstance(v, str):
-            print(f"route {k}: {v}")
-    ref_name = next(iter(ok_routes))
-    ref = ok_routes[ref_name]
-    ok = all(not isinstance(v, str) for v in res.values())
-    for k, v in ok_routes.items():
-        d = float(np.abs(v - ref).max()) if v.shape == ref.shape else float("inf")
-        print(f"route {k}: max |difference to {ref_name}| = {d:.3g}")
-        ok = ok and d <= 1e-10 * (1 + float(np.abs(ref).max()) + 1e3)
-    return ok
+    """re-run the recorded case of its leg on the real code (same inputs; routes: source semantics and, if a JIT route was
+    involved, JIT; threads: the recorded thread count against 1 thread and the source run) and judge it with the monitor
+    of the run; False iff a failure with the recorded finding key is still observed"""
+    c = rep.get("case") or {}
+    leg = rep.get("leg")
+    rkey = rep.get("key") or {}
+
+    def still(failkeys):
+        """failures that reproduce the recorded symptom (all failures if the file has no key)"""
+        return [k for k in failkeys if not rkey or all(k.get(a) == b for a, b in rkey.items())]
+
+    if leg == "threads" and "family" in c:
+        fam, seed, nt = c["family"], c["seed"], int(c["threads"])
+        nts = sorted({1, nt})
+        rr = run_many("harness.c03", "thread_case", [(fam, seed, n_) for n_ in nts],
+                      env={"NUMBA_DISABLE_JIT": "0", "NUMBA_NUM_THREADS": "16"}, procs=len(nts))
+        rs_ = run_many("harness.c03", "thread_case", [(fam, seed, 0)], env={"NUMBA_DISABLE_JIT": "1"}, procs=1)[0]
+        problems, fails = judge_threads(fam, dict(zip(nts, rr)), rs_)
+        for p in problems:
+            print("thread leg not valid:", p)
+        for f in fails:
+            print("thread leg:", f[4], f[2])
+        return not problems and not still([f[5] for f in fails])
+    if leg == "schedule" and "family" in c:
+        rr = run_many("harness.c03", "schedule_case", [(c["family"], c["seed"])], env={"NUMBA_DISABLE_JIT": "1"}, procs=1)[0]
+        if isinstance(rr, str):
+            print("schedule worker failed:", rr[-400:])
+            return False
+        rec = rr.get(c["op"])
+        if rec is None:
+            print(f"operator {c['op']} is no longer part of family {c['family']}: cannot be replayed")
+            return False
+        fails = judge_schedule(c["family"], c["op"], rec)
+        for f in fails:
+            print("schedule leg:", f[2], f[1])
+        return not still([f[3] for f in fails])
+    if leg in ("routes", "complex") and "data" in c and "grid" in c:
+        case = case_from_record(c)
+        if leg == "complex":
+            rr = run_many("harness.c03", "complex_routes", [(case, int(c["cseed"]))], env={"NUMBA_DISABLE_JIT": "1"}, procs=1)[0]
+            fails = judge_complex(case, rr)
+            for f in fails:
+                print("complex leg:", f[0], f[1])
+            return not still([f[2] for f in fails])
+        recorded = list(c.get("routes", [])) + ([c["route"]] if "route" in c else [])
+        want_jit = any(r_.endswith("[jit]") for r_ in recorded)
+        routes = {}
+        for tag, jit in (("source", False),) + ((("jit", True),) if want_jit else ()):
+            rr = run_many("harness.c03", "real_routes", [(case, jit)], env={"NUMBA_DISABLE_JIT": "0" if jit else "1"}, procs=1)[0]
+            if isinstance(rr, str):
+                print(f"worker ({tag}) failed:", rr[-400:])
+                return False
+            for name, arr in rr.items():
+                routes[f"{name}[{tag}]"] = arr
+        missing = [r_ for r_ in recorded if r_ not in routes]
+        if missing:
+            print("recorded routes that no longer exist for this case:", missing)
+        fails, refp, scale = judge_routes(case, routes)
+        if refp is not None:
+            for name, arr in routes.items():
+                if not isinstance(arr, str):
+                    a = np.asarray(arr, dtype=float).ravel()
+                    d = float(np.nanmax(np.abs(a - refp[1]))) if a.shape == refp[1].shape and np.isfinite(a).any() else float("nan")
+                    if far(d, 1e-10 * scale):
+                        print(f"route {name}: max |difference to {refp[0]}| = {d:.3g} (tolerance {1e-10 * scale:.3g})")
+        for f in fails:
+            print("routes:", f[0], f[1])
+        return not still([f[2] for f in fails])
+    print(f"leg {leg!r}: this file records no input that can be re-run on the real code (extractor / model finding); case: {c}")
+    return False
